@@ -51,7 +51,7 @@ RULE = ("Hypothesis strategies (one per example) draw a structured instance of t
         "an explicit width; distinct = distinct (example, sha1 of the file text, width, threads).")
 ASSUMPTIONS = [
     "the brute-force oracles (written from the problem statements, not from the DP models) are correct at these sizes",
-    "well-formed instance = inside what each example's reader / comments / shipped resources define: knapsack profits >= 0 and weights >= 1; misp weights >= 0; "
+    "well-formed instance = inside what each example's reader / comments / shipped resources define: knapsack profits >= 0 and weights >= 0 (the reader parses them as unsigned; a third of the instances may contain zero-weight items, which the unchanged example solves exactly although no shipped file has one); misp weights >= 0; "
     "max2sat distinct clauses with positive, zero and negative weights (units in both written forms and tautologies included); tsptw integer distances (half of them closed under the triangle inequality, half not, like the shipped benchmark files), wide depot window; "
     "alp aircraft sorted by target time, deadlines monotone per class, separations closed under the triangle inequality; "
     "sop acyclic transitively-closed precedences with fixed first and last job; psp 0/1 demands, zero diagonal change-over, metric and non-metric change-over matrices (the shipped benchmark files contain both)",
@@ -98,7 +98,10 @@ def rows(matrix, sep=" "):
 # ----------------------------------------------------------------------------------------------------------------------
 @st.composite
 def s_knapsack(draw, big=False):
-    items = draw(st.lists(st.tuples(ints(0, 15), ints(1, 10)), min_size=1, max_size=13 if big else 8))
+    # weights are parsed as usize: an item of weight 0 is a valid (if unusual) input, which the unchanged example solves
+    # exactly; no shipped file has one, so only a third of the instances may contain such items (added after seed C16-S8)
+    wmin = 0 if draw(ints(0, 2)) == 0 else 1
+    items = draw(st.lists(st.tuples(ints(0, 15), ints(wmin, 10 if wmin else 6)), min_size=1, max_size=13 if big else 8))
     return {"capacity": draw(ints(0, 35 if big else 20)), "items": [list(i) for i in items], "comment": draw(st.booleans())}
 
 
